@@ -25,6 +25,7 @@ type Env struct {
 	depth    int
 	rootSt   *State
 	preNext  Term // allocation frontier before the call (callee postconditions)
+	absIndex map[string]Term // index expressions standing for an absolute-position bound variable
 }
 
 type specErr struct{ msg string }
@@ -189,10 +190,11 @@ func (x *Exec) tr(env *Env, e Expr) Val {
 			if P.sortOf(x.parseType(e.Types[i], env.pkg)) != SInt {
 				continue
 			}
-			base := findIndexBase(e.Body, v, bound)
-			if base == nil {
+			ix := findIndexExpr(e.Body, v, bound)
+			if ix == nil {
 				continue
 			}
+			base := ix.X
 			bv := x.tr(env, base)
 			var off Term
 			switch bv.T.Sort {
@@ -204,7 +206,21 @@ func (x *Exec) tr(env *Env, e Expr) Val {
 				continue
 			}
 			abs := n.vars[v].T
-			n.vars[v] = Val{T: Sub(abs, off), Ty: tyInt}
+			rel := Sub(abs, off)
+			// x[v+c] / x[v-c]: the absolute variable stands for the whole index
+			if b, ok := ix.I.(EBin); ok {
+				c := x.tr(env, b.R)
+				if b.Op == "+" {
+					rel = Sub(rel, c.T)
+				} else {
+					rel = Add(rel, c.T)
+				}
+			}
+			n.vars[v] = Val{T: rel, Ty: tyInt}
+			if n.absIndex == nil {
+				n.absIndex = map[string]Term{}
+			}
+			n.absIndex[exprString(*ix)] = abs
 		}
 		// facts generated while translating the body (e.g. byte ranges) are dropped:
 		// translate on a scratch state sharing heaps
@@ -216,6 +232,10 @@ func (x *Exec) tr(env *Env, e Expr) Val {
 		return Val{T: Term{fmt.Sprintf("(%s (%s) %s)", q, strings.Join(binds, " "), body.S), SBool}, Ty: tyBool}
 	case EIndex:
 		xv := x.tr(env, e.X)
+		if a, ok := env.absIndex[exprString(e)]; ok && P.sortOf(xv.Ty) == SStr {
+			// the bound variable ranges over absolute positions of this string's base array
+			return Val{T: Select(StrBase(xv.T), a, SInt), Ty: tyByte}
+		}
 		iv := x.tr(env, e.I)
 		switch P.sortOf(xv.Ty) {
 		case SStr:
@@ -944,6 +964,13 @@ func (env *Env) root() *State {
 }
 
 func (x *Exec) applySpecFn(env *Env, sf *SpecFn, args []Val) Val {
+	// types and unqualified names in a spec function are resolved in the
+	// package of the file that declares it
+	if sp := x.P.findPkg(sf.Pkg); sp != nil && (env.pkg == nil || env.pkg != sp.Pkg) {
+		e2 := *env
+		e2.pkg = sp.Pkg
+		env = &e2
+	}
 	if len(args) != len(sf.Params) {
 		env.fail("spec function %s: %d arguments, want %d", sf.Name, len(args), len(sf.Params))
 	}
@@ -1036,7 +1063,7 @@ func (x *Exec) applySpecFn(env *Env, sf *SpecFn, args []Val) Val {
 	// canonical text: references to recursive spec functions by plain name, so
 	// that the symbol does not depend on which function of a mutually
 	// recursive group was unfolded first
-	h := sha1.Sum([]byte(recRefRe.ReplaceAllString(body.T.S, "spec!$1")))
+	h := sha1.Sum([]byte(boundVarRe.ReplaceAllString(recRefRe.ReplaceAllString(body.T.S, "spec!$1"), "q!$1")))
 	name := fmt.Sprintf("spec!%s!%x", sf.Name, h[:4])
 	fn := x.declareFun(name, sorts, rs)
 	if !x.recDone[name] {
@@ -1056,6 +1083,8 @@ func (x *Exec) applySpecFn(env *Env, sf *SpecFn, args []Val) Val {
 	_ = before
 	return Val{T: App(fn, rs, ts...), Ty: rt}
 }
+
+var boundVarRe = regexp.MustCompile(`q!([A-Za-z0-9_]+)![0-9]+`)
 
 var recRefRe = regexp.MustCompile(`spec!([A-Za-z0-9_]+)!(PENDING|[0-9a-f]{8})`)
 
@@ -1093,8 +1122,8 @@ func (x *Exec) specParamType(decl string, actual types.Type, pkg *types.Package)
 
 // findIndexBase returns the first sequence expression indexed by bound
 // variable v (as x[v] or x[v+c]) whose own text mentions no bound variable.
-func findIndexBase(e Expr, v string, bound map[string]bool) Expr {
-	var res Expr
+func findIndexExpr(e Expr, v string, bound map[string]bool) *EIndex {
+	var res *EIndex
 	var walk func(e Expr)
 	isV := func(i Expr) bool {
 		switch i := i.(type) {
@@ -1116,7 +1145,8 @@ func findIndexBase(e Expr, v string, bound map[string]bool) Expr {
 		switch e := e.(type) {
 		case EIndex:
 			if isV(e.I) && !mentions(e.X, bound) {
-				res = e.X
+				cp := e
+				res = &cp
 				return
 			}
 			walk(e.X)
